@@ -133,7 +133,7 @@ Proof. exact active_orderings_bounded. Qed.
     (2) every chunk is closed in that sense for the four brace schemes, and
         for 'none' the follow condition: a chunk ending in a control word
         followed by letters yields another (unknown) macro name — still inert,
-        see [ex_orderings] — and no chunk ends inside a comment or math;
+        see [C13_active_orderings_nonvacuous] — and no chunk ends inside a comment or math;
     (3) policy chunks: 'keep' emits an arbitrary non-ASCII character (plain
         chars for the tokenizer: needs [py_isspace]/specials facts for every
         code point), 'unihex' emits [\ensuremath{\langle}\texttt{U+XXXX}...]
@@ -156,13 +156,20 @@ Example C13_ascii_nonvacuous :
   = EncOk (lit "\'e\ensuremath{\langle}\texttt{U+4E2D}\ensuremath{\rangle}\ensuremath{\langle}\texttt{U+1F600}\ensuremath{\rangle}") /\
   encode_builtin true PBracesAll UReplace [233; 20013] = EncOk (lit "{\'{e}}{\bfseries ?}") /\
   (exists t, encode_builtin false PBraces UKeep [20013] = EncOk t /\ is_ascii_str t = false).
-Proof. exact ex_ascii. Qed.
+Proof.
+  split; [right; left; reflexivity|]. split; [right; right; left; reflexivity|].
+  split; [vm_compute; reflexivity|]. split; [vm_compute; reflexivity|].
+  eexists. split; vm_compute; reflexivity.
+Qed.
 
 Example C13_fail_iff_nonvacuous :
   encode_builtin false PBraces UFail [97; 7] = EncValueError /\
   no_rule false 7 /\ passthrough 7 = false /\
   encode_builtin false PBraces UFail [97; 233; 37] = EncOk (lit "a\'e\%").
-Proof. exact ex_fail. Qed.
+Proof.
+  split; [vm_compute; reflexivity|]. split; [|split; vm_compute; reflexivity].
+  apply map_of_find_none. vm_compute. reflexivity.
+Qed.
 
 Example C13_active_ascii_escaped_nonvacuous :
   In 37 active_ascii /\ In PNone all_prots /\
@@ -170,26 +177,37 @@ Example C13_active_ascii_escaped_nonvacuous :
   parse_encoded [97; 37; 98] = IParsed 1 0 0 /\ parse_encoded [36; 97; 36] = IParsed 0 0 1 /\
   encode_builtin false PNone UKeep [97; 37; 98] = EncOk (lit "a\%b") /\
   parse_encoded (lit "a\%b") = IParsed 0 0 0.
-Proof. exact ex_active. Qed.
+Proof.
+  split; [repeat (try (left; reflexivity); right)|]. split; [left; reflexivity|].
+  split; [vm_compute; reflexivity|]. split; [vm_compute; reflexivity|].
+  split; [vm_compute; reflexivity|]. split; [vm_compute; reflexivity|].
+  split; vm_compute; reflexivity.
+Qed.
 
 Example C13_single_characters_parse_nonvacuous :
   map_lookup (map_of true) 940 = Some [92; 39; 123; 36; 92; 97; 108; 112; 104; 97; 36; 125] /\
   parse_encoded (apply_protection PBraces [92; 39; 123; 36; 92; 97; 108; 112; 104; 97; 36; 125]) = IParsed 0 0 1.
-Proof. exact math_entry_example. Qed.
+Proof. vm_compute. split; reflexivity. Qed.
 
 Example C13_known_findings_nonvacuous :
   In 779 known_xml_unparseable /\ map_lookup (map_of true) 779 = Some (lit "\H") /\
   encode_builtin true PBraces UKeep [97; 779] = EncOk (lit "a{\H}") /\
   parse_encoded (lit "a{\H}") = IParseError (Some 4%nat) /\
   map_lookup (map_of false) 779 = None.
-Proof. exact ex_known. Qed.
+Proof.
+  split; [apply (proj1 (mem_N_In 779 known_xml_unparseable)); vm_compute; reflexivity|].
+  split; [vm_compute; reflexivity|]. split; [vm_compute; reflexivity|].
+  split; vm_compute; reflexivity.
+Qed.
 
 Example C13_active_orderings_nonvacuous :
   In PBraces all_prots /\
   encode_builtin false PBraces UFail [92; 97; 37] = EncOk (lit "{\textbackslash}a\%") /\
   parse_encoded (lit "{\textbackslash}a\%") = IParsed 0 0 0 /\
   encode_builtin false PNone UFail [92; 97; 37] = EncOk (lit "\textbackslasha\%").
-Proof. exact ex_orderings. Qed.
+Proof.
+  split; [right; left; reflexivity|]. split; [vm_compute; reflexivity|]. split; vm_compute; reflexivity.
+Qed.
 
 Print Assumptions C13_encoding_is_chunkwise.
 Print Assumptions C13_ascii.
